@@ -7,7 +7,9 @@
 //	            split, /Size, startxref). For synthetic contexts the free entries and /Size come from the
 //	            pdfcpu context, for documents from the written trailer/xref.
 //	  check     the extracted strict checker `check_file` must accept the real bytes (stage 0).
-//	  checkrows xref-stream outputs: rows inflated by this harness, handed to the extracted `check_rows`.
+//	  xstream   xref-stream outputs: this harness inflates the stream; the extracted `check_xref_stream` decodes the
+//	            rows strictly (exact /W widths, exact /Index counts, nothing left over) and applies `check_rows`;
+//	  w2width / xcontent: the writer's /W[1] and row bytes against Model.w2_width / xref_stream_content.
 //	  i64buf    write.go int64ToBuf against the model; dec; FreeObject against free_object.
 //	O (oracle) pdfscan.go checkFile: an independent strict Go checker of the same facts (plus object
 //	  streams, stream /Length, increments) must accept every output.
@@ -148,7 +150,7 @@ func evaluate(info outInfo, out []byte, eol string, oracle bool, ctxFrees []free
 			st = 1
 		case f.class == "tail-syntax":
 			st = 2
-		case f.class == "startxref-target" || f.class == "xref-syntax":
+		case f.class == "startxref-target" || f.class == "xref-syntax" || f.class == "xref-stream-width":
 			st = 3
 		case strings.HasPrefix(f.class, "size") || strings.HasPrefix(f.class, "free-list"):
 			st = 4
@@ -214,14 +216,19 @@ func evaluate(info outInfo, out []byte, eol string, oracle bool, ctxFrees []free
 			r.Case("check", []string{vh.Hex(out)}, strconv.Itoa(stage))
 		}
 	} else if oracle {
-		var rows []string
-		for _, e := range sec.ents {
-			if e.typ == 2 {
-				continue
-			}
-			rows = append(rows, vh.Int(int64(e.nr))+":"+vh.Int(int64(e.a))+":"+vh.Int(int64(e.b))+":"+vh.Bool(e.typ == 0))
+		// the extracted checker decodes the inflated rows itself (exact widths, exact count, no rest)
+		var ix, rows []string
+		for i := 0; i+1 < len(sec.index); i += 2 {
+			ix = append(ix, vh.Int(int64(sec.index[i]))+":"+vh.Int(int64(sec.index[i+1])))
 		}
-		r.Case("checkrows", []string{vh.Hex(out), vh.Int(int64(sec.size)), vh.Int(int64(ck.maxComp)), strings.Join(rows, ";")}, vh.Bool(rowsOK))
+		r.Case("xstream", []string{vh.Hex(out), vh.Int(int64(sec.size)), strconv.Itoa(sec.w[0]), strconv.Itoa(sec.w[1]), strconv.Itoa(sec.w[2]),
+			strings.Join(ix, ";"), vh.Hex(sec.data)}, vh.Bool(rowsOK))
+		// the writer's width choice and row encoding against the model (offset = position of the xref stream)
+		r.Case("w2width", []string{vh.Int(int64(sec.size)), vh.Int(int64(sec.off))}, strconv.Itoa(sec.w[1]))
+		for _, e := range sec.ents {
+			rows = append(rows, vh.Int(int64(e.typ))+":"+vh.Int(int64(e.a))+":"+vh.Int(int64(e.b)))
+		}
+		r.Case("xcontent", []string{vh.Int(int64(sec.size)), vh.Int(int64(sec.off)), strings.Join(rows, ";")}, vh.Hex(sec.data))
 	}
 }
 
@@ -720,6 +727,106 @@ func generated() {
 	}
 }
 
+// rawSparse: a one-page PDF whose highest object number is H: either the page's content stream is object H
+// (in use) or object H is a free entry linked from object 0. The xref table has two subsections.
+func rawSparse(H int, free bool) []byte {
+	content := "0 0 m 10 10 l S"
+	cnr := H
+	if free {
+		cnr = 4
+	}
+	bodies := map[int]string{
+		1:   "<</Type/Catalog/Pages 2 0 R>>",
+		2:   "<</Type/Pages/Count 1/Kids[3 0 R]>>",
+		3:   fmt.Sprintf("<</Type/Page/Parent 2 0 R/MediaBox[0 0 200 200]/Contents %d 0 R>>", cnr),
+		cnr: fmt.Sprintf("<</Length %d>>\nstream\n%s\nendstream", len(content), content),
+	}
+	var b bytes.Buffer
+	b.WriteString("%PDF-1.7\n%\xe2\xe3\xcf\xd3\n")
+	offs := map[int]int{}
+	for _, nr := range []int{1, 2, 3, cnr} {
+		offs[nr] = b.Len()
+		fmt.Fprintf(&b, "%d 0 obj\n%s\nendobj\n", nr, bodies[nr])
+	}
+	x := b.Len()
+	if free {
+		fmt.Fprintf(&b, "xref\n0 5\n%010d 65535 f \n", H)
+		for nr := 1; nr <= 4; nr++ {
+			fmt.Fprintf(&b, "%010d 00000 n \n", offs[nr])
+		}
+		fmt.Fprintf(&b, "%d 1\n%010d 00001 f \n", H, 0)
+	} else {
+		b.WriteString("xref\n0 4\n0000000000 65535 f \n")
+		for nr := 1; nr <= 3; nr++ {
+			fmt.Fprintf(&b, "%010d 00000 n \n", offs[nr])
+		}
+		fmt.Fprintf(&b, "%d 1\n%010d 00000 n \n", H, offs[H])
+	}
+	fmt.Fprintf(&b, "trailer\n<</Size %d/Root 1 0 R>>\nstartxref\n%d\n%%%%EOF\n", H+1, x)
+	return b.Bytes()
+}
+
+func sparse() {
+	rd := func(b []byte) io.ReadSeeker { return bytes.NewReader(b) }
+	type path struct {
+		name string
+		run  func(in []byte, w io.Writer, c *model.Configuration) error
+	}
+	paths := []path{
+		{"write-noopt", func(in []byte, w io.Writer, c *model.Configuration) error {
+			ctx, err := api.ReadContext(rd(in), c)
+			if err != nil {
+				return err
+			}
+			if err := api.ValidateContext(ctx); err != nil {
+				return err
+			}
+			return api.WriteContext(ctx, w)
+		}},
+		{"optimize", func(in []byte, w io.Writer, c *model.Configuration) error { return api.Optimize(rd(in), w, c) }},
+	}
+	for _, H := range []int{65535, 65536, 70000, 1 << 24, 1<<24 + 1} {
+		for _, free := range []bool{false, true} {
+			in := rawSparse(H, free)
+			if ck := checkFile(in, "\n", false); len(ck.findings) > 0 {
+				panic("sparse generator produced a bad input: " + ck.findings[0].detail)
+			}
+			variant := "sparse-inuse"
+			if free {
+				variant = "sparse-free"
+			}
+			for _, p := range paths {
+				for eolIdx := 0; eolIdx < 3; eolIdx++ {
+					for k := 0; k < 3; k++ {
+						eol := eols[eolIdx]
+						c := conf(eol, k >= 1, k == 2)
+						var out bytes.Buffer
+						var err error
+						var panicked any
+						func() {
+							defer func() { panicked = recover() }()
+							err = p.run(in, &out, c)
+						}()
+						info := outInfo{Source: fmt.Sprintf("sparse(H=%d,free=%v)", H, free), Op: p.name, Eol: eolNames[eolIdx],
+							XRef: map[bool]string{true: "stream", false: "table"}[k >= 1], ObjStm: k == 2, Seed: r.Seed,
+							Variant: variant + ":" + p.name, InputHex: vh.Hex(in)}
+						r.Count("gen:" + variant + ":" + p.name)
+						if panicked != nil {
+							r.OracleFail("panic:"+variant+":"+p.name, info, fmt.Sprint(panicked))
+							continue
+						}
+						if err != nil {
+							r.Count("gen-op-error:" + variant + ":" + p.name)
+							continue
+						}
+						evaluate(info, out.Bytes(), eol, true, nil, -1, nil)
+					}
+				}
+			}
+		}
+	}
+}
+
 func documents() {
 	repo := os.Getenv("VERIF_REPO")
 	if repo == "" {
@@ -951,5 +1058,6 @@ func main() {
 		synthetic(i)
 	}
 	generated()
+	sparse()
 	documents()
 }
